@@ -5,7 +5,7 @@ instruction as decoding the suffix, records the offset, leaves the stream at off
 opcodes / invalid forms) and seeded random bytes; outcome classes absent | instr(len, renders in both syntaxes) |
 internal(exception type, site) | timeout; judged by spec/T_C10.tla over spec/Stream.tla and the reference decoder.
 Assembler half: vf/c10_asm.py (run_asm_part), called from run() when present."""
-import os, sys, json, random, signal, collections, multiprocessing, importlib
+import os, sys, io, json, random, signal, collections, multiprocessing, importlib
 from . import core, ia32lib, ia32space
 
 FILL = bytes([0x11, 0x22, 0x33, 0x44, 0x55, 0x77, 0x88, 0x99])
@@ -38,13 +38,28 @@ def _out(fn):
         return o, None
 
 
+class _Virt(object):
+    """a virtual address space over one mapped region starting at 0 (the interface bin_stream_virt expects)"""
+    def __init__(self, data):
+        self.data = data
+
+    def __len__(self):
+        return len(self.data)
+
+    def __call__(self, start, stop, section=None):
+        return self.data[start:stop]
+
+    def __getitem__(self, item):
+        return self.data[item]
+
+
 def observe_one(b):
     if ia32lib._mn is None:
         ia32lib._init()
     from miasmx.core.bin_stream import bin_stream
     mn = ia32lib._mn
     r = {'b': list(b)}
-    signal.alarm(20)
+    ia32lib.arm(20)
     try:
         try:
             r['base'] = _out(lambda: mn.dis(bytes(b)))[0]
@@ -54,13 +69,21 @@ def observe_one(b):
             for o in OFFS:
                 stream = b'\xcc' * o + bytes(b) + FILL
                 suf = _out(lambda: mn.dis(bytes(b) + FILL))[0]
-                bs = bin_stream(stream, o)
-                out, ins = _out(lambda: mn.dis(bs))
-                offs.append({'o': o, 'n': len(stream), 'suf': suf, 'out': out,
-                             'ioff': int(ins.offset) if ins is not None else -1, 'after': int(bs.offset)})
+                # the three stream classes of bin_stream.py refine the same abstract stream (Stream.tla): a byte string,
+                # a file object, a virtual address space
+                for kind in ('str', 'file', 'virt'):
+                    if kind == 'str':
+                        bs = bin_stream(stream, o)
+                    elif kind == 'file':
+                        bs = bin_stream(io.BytesIO(stream), o)
+                    else:
+                        bs = bin_stream(_Virt(stream), o)
+                    out, ins = _out(lambda: mn.dis(bs))
+                    offs.append({'o': o, 'n': len(stream), 'suf': suf, 'out': out, 'kind': kind,
+                                 'ioff': int(ins.offset) if ins is not None else -1, 'after': int(bs.offset)})
             r['offs'] = offs
         finally:
-            signal.alarm(0)
+            ia32lib.disarm()
     except ia32lib._TO:
         r.setdefault('base', dict(NOUT))
         r['base'] = dict(r['base'], k='timeout')
